@@ -885,7 +885,7 @@ def fs_monitor(w):
 
 
 ALL_ORACLES = [o_termination, o_exact, o_streaming_order, o_failure_truth, o_mpu,
-               o_callbacks, o_progress, o_limits, o_memory, o_semaphores, o_barrier,
+               o_callbacks, o_progress, o_limits, o_memory, o_semaphores, o_barrier, o_isolation,
                o_cancel, o_fs]
 
 
